@@ -122,13 +122,38 @@ def gen_direct(rng, n):
         beh = rng.choice(BEHS)
         c = {"suite": "direct", "domain": gen_domain(rng), "u": gen_user(rng), "p": gen_pass(rng), "beh": beh, "prov": "none"}
         out.append(c)
-    # provisioned-but-unclaimed and disabled accounts, with an accepting backend
-    for i in range(max(2, n // 40)):
-        mode = "uninit" if i % 2 == 0 else "disabled"
-        local = "prov%d%s" % (i, word(rng, list("abc"), 1, 3))
+    # world states of the account that logs in (WORLD: mode -> EnsureUserAndMailboxes succeeds?,
+    # password initialised?), mostly with an accepting backend; the accounts are created in the
+    # scenario's setup phase, the logins of all other cases lie in between
+    modes = list(WORLD)
+    for i in range(max(len(modes), n // 12)):
+        mode = modes[i % len(modes)]
+        local = "w%d%s%s" % (i, mode[:2], word(rng, list("abcXY.-_"), 1, 4))
         dom = rng.choice(DOMAINS)
-        u = local if rng.random() < 0.5 else local + "@" + dom
-        out.append({"suite": "direct", "domain": dom, "u": u, "p": "pw", "beh": "200", "prov": mode, "prov_local": local, "prov_domain": dom})
+        other = rng.choice([d for d in DOMAINS if d != dom])
+        r = rng.random()
+        if r < 0.45:
+            u, cfgdom = local, dom                      # bare name, default domain
+        elif r < 0.8:
+            u, cfgdom = local + "@" + dom, other        # full address, foreign default domain
+        else:
+            u, cfgdom = local + "@" + dom, dom
+        out.append({"suite": "direct", "domain": cfgdom, "u": u, "p": "pw", "beh": "200" if rng.random() < 0.85 else rng.choice(BEHS),
+                    "prov": mode, "prov_local": local, "prov_domain": dom})
+    return out
+
+
+# account state before the login -> (EnsureUserAndMailboxes succeeds, password_initialized)
+WORLD = {"uninit": (True, False), "disabled": (False, False), "existing": (True, True),
+         "disabled_init": (False, True), "lmtp": (True, True), "reenabled": (True, True)}
+
+
+def gen_race(rng, quick):
+    out = []
+    plans = [(3, 12, False), (3, 10, True)] if quick else [(3, 40, False), (4, 30, False), (2, 30, True), (3, 30, True)]
+    for n, (k, rounds, lmtp) in enumerate(plans):
+        out.append({"suite": "race", "domain": rng.choice(DOMAINS), "k": k, "rounds": rounds, "lmtp": lmtp,
+                    "prefix": "race%d%s" % (n, word(rng, list("abc"), 1, 2)), "full_address": rng.random() < 0.5, "beh": "200"})
     return out
 
 
@@ -248,6 +273,10 @@ def scenario_ops(cases):
         idx = [i for i, c in enumerate(cases) if c["suite"] == suite]
         if not idx:
             continue
+        # accounts with a prepared world state log in last
+        idx.sort(key=lambda i: 0 if cases[i].get("prov", "none") == "none" else 1)
+        setup = [{"prov": cases[i]["prov"], "prov_local": cases[i]["prov_local"], "prov_domain": cases[i]["prov_domain"]}
+                 for i in idx if cases[i].get("prov", "none") != "none"]
         dc = []
         for i in idx:
             c = cases[i]
@@ -260,11 +289,18 @@ def scenario_ops(cases):
             else:
                 d.update({"kind": "authplain", "tls": c["tls"], "tag": c["tag"], "blob": c["blob"], "timeout_ms": 6000})
             dc.append(d)
-        ops.append({"op": opname, "cases": dc})
+        o = {"op": opname, "cases": dc}
+        if suite == "direct" and setup:
+            o["setup"] = setup
+        ops.append(o)
         owners.append(idx)
     for i, c in enumerate(cases):
         if c["suite"] == "ident":
             ops.append({"op": "c04_ident", "domain": c["domain"], "users": c["users"]})
+            owners.append([i])
+        if c["suite"] == "race":
+            ops.append({"op": "c04_race", "domain": c["domain"], "k": c["k"], "rounds": c["rounds"], "lmtp": c["lmtp"],
+                        "prefix": c["prefix"], "full_address": c["full_address"], "warm": 2})
             owners.append([i])
     # SASL: one server per (domain, dead)
     groups = {}
@@ -314,6 +350,12 @@ def run_impl(cases, workers=8, chunk=60):
                 continue
             if op["op"] == "c04_ident":
                 ch[idx[0]]["obs"] = {"cfg_domain": ob["cfg_domain"], "rows": ob["rs"]}
+                continue
+            if op["op"] == "c04_race":
+                ch[idx[0]]["obs"] = {"cfg_domain": ob["cfg_domain"], "rounds": ob["rounds"]}
+                continue
+            if ob.get("setup_errors"):
+                crashes.append("world setup failed: %s" % ob["setup_errors"][:3])
                 continue
             for i, r in zip(idx, ob["rs"]):
                 ch[i]["obs"] = r
@@ -365,7 +407,7 @@ def observed(c):
 def emit(cases):
     """Coq sources evaluating all cases: list of (suite, keys, file body)"""
     src = C.COQ_CASE_HEADER + "From Raven Require Import Base.GoStrB64 Spec.Json Model.Auth Spec.AuthSpec Spec.AuthObs.\n"
-    groups = {"direct": [], "ident": [], "login": [], "plain": [], "sasl": []}
+    groups = {"direct": [], "ident": [], "login": [], "plain": [], "sasl": [], "race": []}
     skipped = SKIPPED
     for i, c in enumerate(cases):
         if "obs" not in c:
@@ -374,6 +416,16 @@ def emit(cases):
         if s == "ident":
             for j, (u, row) in enumerate(zip(c["users"], c["obs"]["rows"])):
                 groups[s].append(((i, j), "(mk_icase %s %s (%s, %s))" % (cs(c["domain"]), cs(u), cs(row[0]), cs(row[1]))))
+            continue
+        if s == "race":
+            for r, rd in enumerate(c["obs"]["rounds"]):
+                for j, se in enumerate(rd["sessions"]):
+                    reply = reply_class(se.get("wrote", ""), "T")
+                    row = se.get("row") if se.get("authed") else None
+                    if se.get("authed") and not row:
+                        row = ["\x00missing-row", ""]
+                    b = "None" if row is None else "(Some (%s, %s))" % (cs(row[0]), cs(row[1]))
+                    groups[s].append(((i, (r, j)), "(mk_rcase %s %s %s %s)" % (cs(c["obs"]["cfg_domain"]), cs(rd["u"]), reply, b)))
             continue
         oc, _ = outcome(c["beh"])
         if s == "sasl":
@@ -389,8 +441,9 @@ def emit(cases):
         obs = coq_out(bodies, reply, bound)
         c["domain"] = c["obs"].get("cfg_domain", c["domain"])   # the domain raven read back from raven.yaml
         if s == "direct":
-            ens = C.coq_bool(c.get("prov") != "disabled")
-            init = C.coq_bool(c.get("prov") != "uninit")
+            ens_ok, init_ok = WORLD.get(c.get("prov", "none"), (True, True))
+            ens = C.coq_bool(ens_ok)
+            init = C.coq_bool(init_ok)
             groups[s].append((i, "(mk_dcase %s %s %s %s %s %s %s)" % (cs(c["domain"]), cs(c["u"]), cs(c["p"]), oc, ens, init, obs)))
         elif s == "login":
             it = "None" if c["intended"] is None else "(Some (%s, %s, %s, %s))" % (c["intended"][0], c["intended"][1], cs(c["intended"][2]), cs(c["intended"][3]))
@@ -399,7 +452,7 @@ def emit(cases):
             it = "None" if c["intended"] is None else "(Some (%s, %s))" % (cs(c["intended"][0]), cs(c["intended"][1]))
             groups[s].append((i, "(mk_pcase %s %s %s %s %s %s %s)" % (C.coq_bool(c["tls"]), cs(c["domain"]), cs(c["authzid"]), cs(c["blob"]), oc, it, obs)))
     ev = {"direct": ("dcase", "dcase_eval"), "ident": ("icase", "icase_eval"), "login": ("wcase", "wcase_eval"),
-          "plain": ("pcase", "pcase_eval"), "sasl": ("scase", "scase_eval")}
+          "plain": ("pcase", "pcase_eval"), "sasl": ("scase", "scase_eval"), "race": ("rcase", "rcase_eval")}
     files = []
     for s, items in groups.items():
         ty, f = ev[s]
@@ -412,10 +465,11 @@ def emit(cases):
 
 
 COQ_CHUNK = 260
-MAX_REPORT = 6
+MAX_REPORT = 3   # fresh violations written out per suite
 SKIPPED = []
 
-ROW = re.compile(r"\((\d+), \((true|false), (true|false), (\d+)\)\)")
+# Coq wraps long lists: "( 163, (false, false, 0))" is possible
+ROW = re.compile(r"\(\s*(\d+)\s*,\s*\(\s*(true|false)\s*,\s*(true|false)\s*,\s*(\d+)\s*\)\s*\)")
 
 
 def evaluate(chk, cases, tagname):
@@ -438,7 +492,11 @@ def evaluate(chk, cases, tagname):
         if txt is None:
             chk.broken_obligation("could not read the evaluation of suite %s from the Coq output:\n%s" % (s, log[-1500:]))
             return None
-        for m in ROW.finditer(txt):
+        rows = list(ROW.finditer(txt))
+        if len(rows) != (0 if txt.strip() == "[]" else txt.count(";") + 1):
+            chk.broken_obligation("could not parse every row of the evaluation of suite %s: %s" % (s, txt[:600]))
+            return None
+        for m in rows:
             k = keys[int(m.group(1))]
             sub = None
             if isinstance(k, tuple):
@@ -449,7 +507,9 @@ def evaluate(chk, cases, tagname):
 
 def payload_of(c, sub=None):
     p = {k: v for k, v in c.items() if k not in ("obs",)}
-    if sub is not None:
+    if sub is not None and c["suite"] == "race":
+        p["observed"] = c["obs"]["rounds"][sub[0]]
+    elif sub is not None:
         p = {"suite": "ident", "domain": c["domain"], "users": [c["users"][sub]]}
         p["observed"] = c["obs"]["rows"][sub]
     else:
@@ -460,8 +520,16 @@ def payload_of(c, sub=None):
 
 def describe(c, sub=None):
     s = c["suite"]
+    if s == "direct" and c.get("prov", "none") != "none":
+        return "authenticateUser(%r, %r) domain=%r backend=%s, account state %s -> %r bound to users row %r" % (
+            c["u"], c["p"], c["domain"], c["beh"], c["prov"], (c.get("obs") or {}).get("wrote", "")[:12], (c.get("obs") or {}).get("row"))
     if s == "direct":
         return "authenticateUser(%r, %r) domain=%r backend=%s" % (c["u"], c["p"], c["domain"], c["beh"])
+    if s == "race":
+        rd = c["obs"]["rounds"][sub[0]]
+        se = rd["sessions"][sub[1]]
+        return "concurrent first logins of %r (k=%d%s) domain=%r: session %d answered %r and is bound to users row %r" % (
+            rd["u"], c["k"], ", racing a first delivery" if c["lmtp"] else "", c["obs"]["cfg_domain"], sub[1], se.get("wrote", "")[:12], se.get("row"))
     if s == "ident":
         return "ExtractUsername/GetUserDomain(%r) domain=%r -> %r" % (c["users"][sub], c["domain"], c["obs"]["rows"][sub])
     if s == "login":
@@ -499,7 +567,7 @@ def neighbours(c):
     out = []
     for beh in ("200", "401", "close"):
         n = {k: v for k, v in c.items() if k not in ("obs", "corpus", "expect_class")}
-        if n["suite"] == "ident":
+        if n["suite"] in ("ident", "race") or n.get("prov", "none") != "none":
             continue
         n["beh"] = beh
         if "tag" in n:
@@ -515,6 +583,7 @@ def run(chk):
     n_direct, n_ident, n_login, n_plain, n_sasl = (420, 600, 110, 90, 330) if quick else (4000, 6000, 900, 700, 3000)
     cases = list(corpus)
     cases += gen_direct(rng, n_direct) + gen_ident(rng, n_ident) + gen_login(rng, n_login) + gen_plain(rng, n_plain) + gen_sasl(rng, n_sasl)
+    cases += gen_race(rng, quick)
     if not quick:
         # the SASL client's own patience (10 s): a backend that answers 200 too late must not yield OK
         cases.append({"suite": "sasl", "domain": "d.test", "line": "AUTH\t5\tPLAIN\tresp=" + b64("\x00late\x00pw"), "beh": "slowfail:11500", "intended": ["5", "late", "pw"]})
@@ -525,7 +594,7 @@ def run(chk):
         if c["suite"] in ("login", "plain") and "corpus" not in c:
             pass
 
-    flat_sizes = [len(c["users"]) if c["suite"] == "ident" else 1 for c in cases]
+    flat_sizes = [len(c["users"]) if c["suite"] == "ident" else (c["rounds"] * c["k"] if c["suite"] == "race" else 1) for c in cases]
     bad = evaluate(chk, cases, "")
     if bad is None:
         return
@@ -533,10 +602,13 @@ def run(chk):
     # ---- coverage
     n_eval = sum(flat_sizes)
     chk.cov["evaluations"] = n_eval
-    chk.cov["by_suite"] = {s: sum(sz for c, sz in zip(cases, flat_sizes) if c["suite"] == s) for s in ("direct", "ident", "login", "plain", "sasl")}
+    chk.cov["by_suite"] = {s: sum(sz for c, sz in zip(cases, flat_sizes) if c["suite"] == s) for s in ("direct", "ident", "login", "plain", "sasl", "race")}
     chk.cov["backend_behaviours"] = sorted(set(c.get("beh", "") for c in cases if c["suite"] != "ident"))
     accepted = [c for c in cases if c["suite"] in ("direct", "login", "plain") and observed(c)[1] == "R_OK"]
     chk.cov["imap_sessions_authenticated"] = len(accepted)
+    chk.cov["account_states"] = {m: sum(1 for c in cases if c["suite"] == "direct" and c.get("prov") == m) for m in WORLD}
+    chk.cov["race_rounds"] = sum(c["rounds"] for c in cases if c["suite"] == "race")
+    chk.cov["race_sessions_ok"] = sum(1 for c in cases if c["suite"] == "race" for rd in c["obs"]["rounds"] for se in rd["sessions"] if se.get("authed"))
     chk.cov["sasl_ok_answers"] = sum(1 for c in cases if c["suite"] == "sasl" and c["obs"].get("wrote", "").startswith("OK\t"))
     seen = set()
     for c in cases:
@@ -547,6 +619,10 @@ def run(chk):
             for u in c["users"]:
                 if "@" in u:
                     seen.add(("i", c["domain"], u))
+            continue
+        elif c["suite"] == "race":
+            for rd in c["obs"]["rounds"]:
+                seen.add(("r", c["prefix"], rd["u"]))
             continue
         elif c["suite"] == "sasl":
             key = ("s", c["domain"], c["line"], c["beh"])
@@ -573,18 +649,30 @@ def run(chk):
                 chk.sample({k: v for k, v in c.items() if k != "obs"} | {"observed": {k: v for k, v in c["obs"].items() if k in ("recv", "wrote", "reqs", "stores")}})
                 break
 
-    # ---- python-side observation notes (panic, Username/row mismatch)
+    # ---- python-side observation notes (panic, state.Username differs from the row of state.UserID)
+    side = []
     for c in cases:
         if c["suite"] in ("direct", "login", "plain"):
             for n in observed(c)[3]:
-                chk.violation("%s: %s" % (describe(c), n), payload_of(c))
+                side.append((c, n))
 
     # ---- decisions
     nd = 0
     n_domain = 0
-    reported = 0   # at most MAX_REPORT fresh violations are written out (the first ones, in case order)
+    rep = {}       # suite -> fresh violations seen; at most MAX_REPORT per suite are written out (the first ones)
+
+    def fresh_slot(c):
+        rep[c["suite"]] = rep.get(c["suite"], 0) + 1
+        return rep[c["suite"]] <= MAX_REPORT
+
     pending = []   # model != impl, spec holds, outside every finding class
     bad.sort(key=lambda b: 0 if "corpus" in b[0] else 1)   # regression witnesses are reported first
+    judged = set(id(b[0]) for b in bad if not b[3])
+    for c, n in side:
+        if id(c) in judged:
+            continue          # already reported below with the full description
+        if fresh_slot(c):
+            chk.violation("%s: %s" % (describe(c), n), payload_of(c))
     for (c, sub, m_ok, s_ok, cls) in bad:
         nd += 1
         if cls == DOMAIN:
@@ -598,10 +686,8 @@ def run(chk):
                 chk.notes.append("domain edge (non-ASCII octets in a line split by strings.Fields/ToUpper): " + describe(c, sub)[:200])
                 continue
             fresh = cls is None or cls not in chk.findings
-            if fresh:
-                reported += 1
-                if reported > MAX_REPORT:
-                    continue
+            if fresh and not fresh_slot(c):
+                continue
             chk.violation(what, payload_of(c, sub), cls=cls)
         elif not m_ok:
             if cls is not None:
@@ -611,8 +697,9 @@ def run(chk):
             else:
                 pending.append((c, sub))
     chk.cov["disagreements_checked"] = nd
-    if reported > MAX_REPORT:
-        chk.notes.append("%d further violating inputs not written out" % (reported - MAX_REPORT))
+    more = sum(max(0, n - MAX_REPORT) for n in rep.values())
+    if more:
+        chk.notes.append("%d further violating inputs not written out" % more)
     chk.cov["cases_skipped"] = len(SKIPPED)
     if len(SKIPPED) * 20 > max(1, chk.cov["by_suite"]["sasl"]):
         chk.broken_obligation("correspondence suite sasl no longer checks: %d of %d SASL cases did not complete (service hangs?): %s"
@@ -638,8 +725,7 @@ def run(chk):
             for (c2, sub2, m2, s2, cls2) in b2:
                 if not s2 and cls2 is None and not non_ascii_edge(c2):  # (DOMAIN rows have cls2 == DOMAIN)
                     found = True
-                    reported += 1
-                    if reported > MAX_REPORT:
+                    if not fresh_slot(c2):
                         continue
                     chk.violation("property violated by the implementation (found near a model/implementation disagreement): " + describe(c2, sub2), payload_of(c2, sub2))
                     found = True
